@@ -586,10 +586,10 @@ def run(ctx):
     try:
         sys.modules.pop(modname, None)
         T = __import__(modname)
-        check_names(ctx, ctx.n(1500, 20000))
-        check_arrays(ctx, T, ctx.n(40, 500), tmp)
-        check_singles(ctx, T, ctx.n(150, 2000), tmp)
-        check_gather(ctx, T, ctx.n(60, 700), tmp)
+        check_names(ctx, ctx.n(1500, 40000))
+        check_arrays(ctx, T, ctx.n(40, 1500), tmp)
+        check_singles(ctx, T, ctx.n(150, 5000), tmp)
+        check_gather(ctx, T, ctx.n(60, 2000), tmp)
     finally:
         logging.disable(logging.NOTSET)
         os.environ.update(saved_env)
